@@ -40,7 +40,11 @@ func loadEnvInternal(env map[string]string, prefix string, prv reflect.Value) er
 			if err != nil {
 				return fmt.Errorf("%s: %w", prefix, err)
 			}
-		} else if envHasAtLeastAKeyWithPrefix(env, prefix) {
+		} else if envHasAtLeastAKeyWithPrefix(env, prefix+"_") { // members only, not parameters whose name begins alike
+			if prv.IsNil() {
+				prv.Set(reflect.New(rt))
+				i = prv.Interface().(Unmarshaler)
+			}
 			err := i.UnmarshalEnv(prefix, "")
 			if err != nil {
 				return fmt.Errorf("%s: %w", prefix, err)
@@ -142,7 +146,7 @@ func loadEnvInternal(env map[string]string, prefix string, prv reflect.Value) er
 			mapKeyLower := strings.ToLower(mapKey)
 			nv := prv.Elem().MapIndex(reflect.ValueOf(mapKeyLower))
 			zero := reflect.Value{}
-			if nv == zero {
+			if nv == zero || nv.IsNil() { // absent, or present without content ("key:" in the file)
 				nv = reflect.New(rt.Elem().Elem())
 				prv.Elem().SetMapIndex(reflect.ValueOf(mapKeyLower), nv)
 			}
@@ -174,6 +178,11 @@ func loadEnvInternal(env map[string]string, prefix string, prv reflect.Value) er
 		return nil
 
 	case reflect.Slice:
+		// the empty list, assigned to an optional (pointer) parameter that is not set yet
+		if ev, ok := env[prefix]; ok && ev == "" && prv.IsNil() {
+			prv.Set(reflect.New(rt))
+		}
+
 		switch {
 		case rt.Elem() == reflect.TypeOf(""):
 			if ev, ok := env[prefix]; ok {
